@@ -13,8 +13,17 @@ CONFIG = {'level': 'proof',
                  'tied on every generated archive by the oracle extract == input and by the independent Lean decoder '
                  '(Model/Agc3.lean) reading the same bytes (counters decoder_eq_input, decoder_violations_empty)',
                  'catalogue plumbing (names, descriptor tables, batches) is C03; the container is C13; FASTA parsing and '
-                 'letter<->code mapping are C16/C19; the end-to-end theorem wf_read (ArchiveWF inp a -> decodeArchive a = '
-                 'inp) is not proved',
+                 'letter<->code mapping are C16/C19',
+                 'end to end: Model/Writer.lean is a whole-archive reference writer with all compressor decisions as data; '
+                 'the C02 harness shows every real archive is an instance (byte identity). Proved for ALL well-formed '
+                 'decisions (DecisionsOK), k >= 1, inputs over the literal codes: pieces_tile, read_write_samples (the decoder\'s '
+                 'last stage returns all samples with catalogue = catalogueOf inp, bases = basesOf inp, no violation, from '
+                 'the catalogue tables and the group table), read_write_bases (from the '
+                 'group table the decoder builds - Props.C02.group_roundtrip - decodeContig on the registered descriptors '
+                 'returns every contig\'s bases and no violation), on top of Props.C02.container_returns_every_part and '
+                 'read_write_segments. The final theorem read_write (decodeArchive (writeArchive ..) = ok d, catalogue, '
+                 'bases, violations = []) is NOT proved: the missing glue (directory analysis, catalogue batches, folds over '
+                 'groups and samples) is listed at the end of Props/C01.lean and covered by the correspondence runs only',
                  'ZSTD enters the theorems as a pair zc/zd with zd (zc l x) = some x and non-empty frames (hypotheses '
                  'of C12); codes are assumed inside the LZ literal range (ragc produces 0..15 and 30: '
                  'Props.C09.ragc_codes_ok)'],
@@ -31,7 +40,12 @@ MANIFEST = {'category': 'proof',
          'against any reference: write then read = identity); contig_roundtrip (main theorem: for every contig, k >= 1, '
          'splitter predicate, every list of split decisions, every vector of orientation flags and storage forms: '
          'segment (C10), split, orient, store, read back, undo orientation, reconstruct_contig = the contig). This is '
-         'the composition C10 + C09 + C12 + C07 + C02(unpack_pack) for the bases of a contig; the end-to-end '
+         'the composition C10 + C09 + C12 + C07 + C02(unpack_pack) for the bases of a contig. About the whole-archive '
+         'reference writer (Model/Writer.lean, every compressor decision is data, DecisionsOK decidable): pieces_tile, '
+         'read_write_samples (all samples: catalogue and bases equal the input, no violation) and '
+         'read_write_bases (all decisions: the decoder returns the bases of every contig from the descriptors the writer '
+         'registers, no violation), composing Props.C02.read_write_segments / group_roundtrip; the full read_write is not '
+         'finished (missing glue listed in Props/C01.lean). The end-to-end '
          'composition with the real writer (its decisions and its registration of pieces) is tied by running create '
          'then extract on every generated sample set (oracle extract == input) and the independent Lean decoder on '
          'the same archive bytes.',
